@@ -158,7 +158,7 @@ def run_job(job, rep):
             rep.reach["undeclared"] += 1
             rep.ob("refuted", f"undeclared:{exc_site(e)}", case, repr(e))
 
-    _, st = core.explore(run, on_path=judge, timeout=job.get("budget", 2400))
+    _, st = core.explore(run, on_path=judge, stop=rep.enough, timeout=job.get("budget", 2400))
     rep.add_stats(st)
 
 
